@@ -155,10 +155,8 @@ theorem sampleOps_ok : ∀ op ∈ sampleOps, OpOkD op := by
       width := by decide +kernel
       height := by decide +kernel
       pixels := by decide +kernel
-      noLength := by decide +kernel
-      notASCII := by decide +kernel
       dataLen := by decide +kernel
-      noFalseEI := by decide +kernel }
+      framing := .inl ⟨by decide +kernel, by decide +kernel, by decide +kernel⟩ }
 
 /-- the instance of `ops_rt_deep`: the written bytes of `sampleOps` scan back as `sampleOps` -/
 theorem sampleOps_rt (bs : Bytes) (hb : fmtOps sampleOps = some bs) :
